@@ -27,5 +27,11 @@ CHECKS = {
     "C15": dict(level="model_checking", technique=SE + "; the ODE stub is the exact closed-form flow of a stable linear system with a symbolic contraction factor, or a drift flow",
                 text="Reduced scope (see DESIGN.md C15): the real convergence loop, Simulator.simulate_to_steady_state, get_result and the scan worker run over an ode stub returning y* + (y0-y*)e^n (0<e<=1/2 symbolic) or y0 + c n; z3 proves for all y0, y*, e, tolerance that a reported success lies within the tolerance of y* (absolute norm, 1-D and 2-D) with balancing fluxes, also when ode.integrate hands out the same array object each call, and that a drift of at least the tolerance per step yields NoSteadyState / a NaN row through the real 1000-iteration loop.",
                 note=NOTE + " Not claimed: LSODA's accuracy, the relative norm, non-linear networks."),
+    "C05": dict(level="model_checking", technique=SE,
+                text="LabelMapper.build_model runs on base networks for every atom-transition map of the required length; the labelled model is then executed on symbolic isotopomer concentrations and z3 proves the positional identity (labelled production at product position i = summed rate of the substrate patterns labelled at position map[i], all patterns for external positions), preservation of initial totals, and sum of isotopomer derivatives = base derivative at the totals; counts and coefficient sums are checked per isotopomer reaction; shorter maps must raise ValueError.",
+                note=NOTE),
+    "C16": dict(level="model_checking", technique=SE,
+                text="Both mappers are built from the same base model, label counts and maps at a symbolic metabolic steady state (rate constants defined as flux / substrate pools); z3 proves, for all pool sizes, fluxes and isotopomer distributions, that the rate the linear model assigns to each label position equals the rate of change of that position's enrichment in the isotopomer model, that uniform enrichment equal to the external pool is stationary, and that no label appears without a source.",
+                note=NOTE),
 }
 NOT_APPLICABLE = {}
